@@ -406,8 +406,9 @@ class C20(Property):
         for i in range(len(order)):
             yield dict(case, order=order[:i] + order[i + 1:])
 
-    def nontrivial(self, case):
-        return json.dumps(case, sort_keys=True)
+    def nontrivial_obs(self, case, obs):
+        d = obs.get('detail') if isinstance(obs, dict) else None
+        return json.dumps(case, sort_keys=True) if isinstance(d, dict) and len(d.get('instances', [])) >= 2 else None
 
     def sample_view(self, case):
         return {'event_types': len(case['spec']['ets']), 'events': len(case['order']), 'min_conf': case['min_conf'], 'max_depth': case['max_depth']}
